@@ -786,6 +786,67 @@ func c16Framing(p *load.Program, r *oblig.Report) {
 	})
 	r.Check(len(hdrRead) == 1 && hdrRead[0] == "(0 == x.nbytes)", rule, "compress/snappy.(*xerialReader).readChunk looks for the xerial header only at the start of the stream", p.Pos(readChunk.Pos()), "if x.nbytes == 0 { x.readFull(x.header[:]) }", strings.Join(hdrRead, " ∧ "))
 	r.RequireCount(rule+" (readFull sites in readChunk)", nFull, 3)
+	// (e) an unframed stream: the bytes consumed while looking for the header are the start of the data, exactly as
+	// many as were read
+	putBack := ""
+	an.EachInstr(readChunk, func(ins ssa.Instruction) {
+		c, ok := ins.(*ssa.Call)
+		if !ok || len(c.Call.Args) != 2 {
+			return
+		}
+		if b, isB := c.Call.Value.(*ssa.Builtin); !isB || b.Name() != "append" {
+			return
+		}
+		if s := clean(an.Shape(c.Call.Args[1])); strings.HasPrefix(s, "x.header[") {
+			putBack = s
+		}
+	})
+	okPut := strings.HasPrefix(putBack, "x.header[:") && strings.Contains(putBack, "readFull(x,x.header[:])#0")
+	r.Check(okPut, rule, "compress/snappy.(*xerialReader).readChunk starts an unframed block with exactly the bytes it read while looking for a header", p.Pos(readChunk.Pos()),
+		"x.input = append(x.input, x.header[:n]...) with n the count returned by readFull(x.header[:])", putBack)
+	// (f) the count returned is the number of bytes decoded straight into dst: non-zero only after decode(dst, …)
+	var badN []string
+	nRet := 0
+	dst := readChunk.Params[1]
+	decodedIntoDst := func(b *ssa.BasicBlock) bool {
+		for d := b; d != nil; d = d.Idom() {
+			for _, ins := range d.Instrs {
+				if c, ok := ins.(*ssa.Call); ok && len(c.Call.Args) == 2 && c.Call.Args[0] == ssa.Value(dst) && strings.HasSuffix(clean(an.Shape(c.Call.Value)), ".decode") {
+					return true
+				}
+			}
+		}
+		return false
+	}
+	an.EachInstr(readChunk, func(ins ssa.Instruction) {
+		ret, ok := ins.(*ssa.Return)
+		if !ok || len(ret.Results) != 2 || ret.Parent() != readChunk {
+			return
+		}
+		nRet++
+		v := an.RetVal(ret, 0)
+		type edge struct {
+			v ssa.Value
+			b *ssa.BasicBlock
+		}
+		edges := []edge{{v, ret.Block()}}
+		if ph, isPhi := v.(*ssa.Phi); isPhi {
+			edges = nil
+			for i, e := range ph.Edges {
+				edges = append(edges, edge{e, ph.Block().Preds[i]})
+			}
+		}
+		for _, e := range edges {
+			if k, isK := an.ConstInt(e.v); isK && k == 0 {
+				continue
+			}
+			if !decodedIntoDst(e.b) {
+				badN = append(badN, clean(an.Shape(e.v))+" returned from the path through "+p.Pos(e.b.Instrs[0].Pos()))
+			}
+		}
+	})
+	r.Check(nRet > 0 && len(badN) == 0, rule, "compress/snappy.(*xerialReader).readChunk reports bytes as delivered only when it decoded into the caller's buffer", p.Pos(readChunk.Pos()),
+		"n != 0 only on the path through x.decode(dst, x.input)", strings.Join(badN, "; "))
 }
 
 func shapeTypeName(t types.Type) string {
